@@ -372,7 +372,8 @@ fn gen_strans(src: &mut Src) -> MStrans {
 fn gen_common(src: &mut Src, o: &GdsGenOpts) -> MCommon {
     let elflags = if src.prob(1, 3) { Some((src.below(256) as u8, src.below(256) as u8)) } else { None };
     let plex = if src.prob(1, 3) { Some(gen_i32(src)) } else { None };
-    let np = src.weighted(&[6, 2, 1, 1]);
+    // (now and then a list long enough to outgrow any small inline buffer)
+    let np = if o.large_records && src.prob(1, 60) { src.usize_in(9, 40) } else { src.weighted(&[6, 2, 1, 1]) };
     let mut props: Vec<(i16, String)> = (0..np).map(|_| (gen_i16(src), gen_string(src, o))).collect();
     // the same attribute number twice, the same value twice
     if props.len() >= 2 && src.prob(1, 4) {
@@ -546,7 +547,7 @@ pub fn gen_lib(src: &mut Src, o: &GdsGenOpts) -> (MLib, bool) {
         dates[h..h + 6].copy_from_slice(&[0; 6]);
     }
     let units = (gen_real(src), gen_real(src));
-    let ns = src.usize_in(0, o.max_structs);
+    let ns = if o.large_records && src.prob(1, 80) { src.usize_in(12, 40) } else { src.usize_in(0, o.max_structs) };
     let mut structs: Vec<MStruct> = vec![];
     for _ in 0..ns {
         // coincidences are data too: a struct named like an earlier one or like the library, dates that repeat
@@ -567,7 +568,7 @@ pub fn gen_lib(src: &mut Src, o: &GdsGenOpts) -> (MLib, bool) {
             let (a, b) = sdates.split_at_mut(6);
             b.copy_from_slice(a);
         }
-        let ne = src.usize_in(0, o.max_elems);
+        let ne = if o.large_records && src.prob(1, 60) { src.usize_in(17, 70) } else { src.usize_in(0, o.max_elems) };
         let mut elems: Vec<MElem> = (0..ne).map(|_| gen_elem(src, o, &mut big)).collect();
         // an element repeated verbatim, at once or later; a reference naming a struct of this library (itself included)
         if !elems.is_empty() && src.prob(1, 8) {
